@@ -31,6 +31,7 @@ _CANON_CALL = {
     "numpy.floor": "floor", "math.floor": "floor", "libc.math.floor": "floor",
     "numpy.ceil": "ceil", "math.ceil": "ceil", "libc.math.ceil": "ceil",
     "numpy.abs": "abs", "numpy.fabs": "abs", "abs": "abs", "libc.math.fabs": "abs", "numpy.absolute": "abs",
+    "libc.stdlib.abs": "abs",
     "numpy.radians": "radians", "numpy.deg2rad": "radians", "math.radians": "radians",
     "numpy.degrees": "degrees", "numpy.rad2deg": "degrees", "math.degrees": "degrees",
     "numpy.exp": "exp", "math.exp": "exp", "libc.math.exp": "exp",
@@ -141,6 +142,22 @@ def terminates(stmts) -> bool:
             return True
         if isinstance(st, (ast.With,)) and terminates(st.body):
             return True
+    return False
+
+
+def has_break(stmts) -> bool:
+    """A break that leaves *this* loop (not one nested deeper)."""
+    for st in stmts:
+        if isinstance(st, ast.Break):
+            return True
+        if isinstance(st, (ast.For, ast.While, ast.AsyncFor, ast.FunctionDef, ast.ClassDef)):
+            continue
+        for fld in ("body", "orelse", "finalbody"):
+            if has_break(getattr(st, fld, []) or []):
+                return True
+        for h in getattr(st, "handlers", []) or []:
+            if has_break(h.body):
+                return True
     return False
 
 
@@ -414,8 +431,8 @@ class Ev:
                 if a is not None and b is not None and (a is b or a.key() == b.key()):
                     merged[k] = a
                 else:
-                    merged[k] = P.atom(("ite", c, a if a is not None else P.atom(("undef", k)),
-                                        b if b is not None else P.atom(("undef", k))))
+                    merged[k] = mk_ite(c, a if a is not None else P.atom(("undef", k)),
+                                       b if b is not None else P.atom(("undef", k)))
             self.env = merged
 
     def _literal_iter(self, node):
@@ -454,13 +471,85 @@ class Ev:
                 self.env[n] = P.atom(("lc", n, k, self.env[n]))
         saved_loops = self.loops
         self.loops = saved_loops + (info,)
+        ev0 = len(self.events)
+        lc_atoms = {n: self.env[n].as_atom() for n in carried if n in self.env}
         self.block(st.body)
         self.loops = saved_loops
+        closed = self._close_counters(info, lc_atoms, ev0)
         for n in carried | set(info.targets):
-            self.env[n] = P.atom(("after", n, k))
+            if n in closed:
+                self.env[n] = closed[n]
+            else:
+                self.env[n] = P.atom(("after", n, k))
         self.block(st.orelse)
 
+    def _close_counters(self, info, lc_atoms, ev0):
+        """Running counters of a unit-step range loop get closed forms (sum of their per-iteration increment)."""
+        from .poly import sum_range, _mentions
+        out = {}
+        if info.kind != "range" or info.step is None or info.step != P.const(1) or has_break(info.node.body):
+            return out
+        var = info.index.as_atom()
+        mapping = {}
+        for n, la in lc_atoms.items():
+            end = self.env.get(n)
+            if end is None or la is None or la[0] != "lc":
+                continue
+            d = end - P.atom(la)
+            if any(_mentions(d, other) for other in lc_atoms.values() if other is not None):
+                continue
+            if find_atoms(d, lambda a: a[0] in ("after", "maybe", "tryphi")):
+                continue
+            init = la[3]
+            entry = sum_range(d, var, info.lo, info.index)
+            total = sum_range(d, var, info.lo, info.hi)
+            if entry is None or total is None:
+                continue
+            mapping[la] = init + entry
+            out[n] = init + total
+        if mapping:
+            for e in self.events[ev0:]:
+                if e.target is not None:
+                    e.target = e.target.subs(mapping)
+                if e.value is not None:
+                    e.value = e.value.subs(mapping)
+                if e.guards:
+                    e.guards = tuple((c.subs(mapping), pol) for c, pol in e.guards)
+                for key in ("args",):
+                    if key in e.extra:
+                        e.extra[key] = tuple(a.subs(mapping) for a in e.extra[key])
+                if "kwargs" in e.extra:
+                    e.extra["kwargs"] = tuple((k2, v.subs(mapping)) for k2, v in e.extra["kwargs"])
+                for key in ("delta", "old"):
+                    if key in e.extra and isinstance(e.extra[key], P):
+                        e.extra[key] = e.extra[key].subs(mapping)
+            for li in self.all_loops:
+                if li.k > info.k or li.k >= 1000:
+                    for fld in ("iter", "lo", "hi", "step"):
+                        v = getattr(li, fld)
+                        if isinstance(v, P):
+                            setattr(li, fld, v.subs(mapping))
+            for name, v in list(self.env.items()):
+                if isinstance(v, P):
+                    self.env[name] = v.subs(mapping)
+        return out
+
     s_AsyncFor = s_For
+
+    @staticmethod
+    def elem_of(it: P, idx: P) -> P:
+        """The idx-th element of an iterable term; zip/enumerate are seen through."""
+        a = it.as_atom()
+        if a and a[0] == "call":
+            c = a[1].as_atom()
+            cn = c[1] if c and c[0] == "name" else None
+            if cn == "zip" and (len(a) < 4 or not a[3]):
+                return P.atom(("tuple", tuple(Ev.elem_of(x, idx) for x in a[2])))
+            if cn == "enumerate" and a[2]:
+                kw = dict(a[3]) if len(a) > 3 else {}
+                start = kw.get("start", a[2][1] if len(a[2]) > 1 else P.const(0))
+                return P.atom(("tuple", (idx + start, Ev.elem_of(a[2][0], idx))))
+        return P.atom(("sub", it, (idx,)))
 
     def _bind_loop(self, target, iter_node, it: P, k: int, st) -> LoopInfo:
         names = tuple(sorted(assigned_names([target])))
@@ -488,16 +577,16 @@ class Ev:
             start = dict(kwargs).get("start", args[1] if len(args) > 1 else P.const(0))
             idx = P.atom(("lv", target.elts[0].id, k))
             self.env[target.elts[0].id] = idx
-            elem = P.atom(("sub", args[0], (idx - start,)))
+            elem = self.elem_of(args[0], idx - start)
             self.assign(target.elts[1], elem, st)
             return LoopInfo(k, st, "enumerate", names, args[0], idx, start, None, P.const(1))
         if cname == "zip" and isinstance(target, ast.Tuple) and len(target.elts) == len(args):
             idx = P.atom(("lv", "_zip", k))
             for e, src in zip(target.elts, args):
-                self.assign(e, P.atom(("sub", src, (idx,))), st)
+                self.assign(e, self.elem_of(src, idx), st)
             return LoopInfo(k, st, "zip", names, it, idx)
         idx = P.atom(("lv", "_it", k))
-        self.assign(target, P.atom(("sub", it, (idx,))), st)
+        self.assign(target, self.elem_of(it, idx), st)
         return LoopInfo(k, st, "iter", names, it, idx)
 
     def s_While(self, st):
@@ -683,9 +772,7 @@ class Ev:
         c = self.ev(n.test)
         a = self.ev(n.body)
         b = self.ev(n.orelse)
-        if a.key() == b.key():
-            return a
-        return P.atom(("ite", c, a, b))
+        return mk_ite(c, a, b)
 
     def e_Attribute(self, n, store=False):
         base = self.ev(n.value)
@@ -876,6 +963,47 @@ def matrix_items(v: P):
             return None
         out.append(list(it))
     return out
+
+
+def parity_of(cond: P):
+    """If cond means 'x is odd' return x (a P), if 'x is even' return (x, False) ... -> (x, odd_when_true) or None."""
+    a = cond.as_atom()
+    if not a:
+        return None
+    if a[0] == "bin" and a[1] == "BitAnd" and a[3] == P.const(1):
+        return a[2], True
+    if a[0] == "bin" and a[1] == "BitAnd" and a[2] == P.const(1):
+        return a[3], True
+    if a[0] == "bin" and a[1] == "Mod" and a[3] == P.const(2):
+        return a[2], True
+    if a[0] in ("eq", "ne"):
+        for x, y in ((a[1], a[2]), (a[2], a[1])):
+            inner = parity_of(y)
+            c = x.const_value()
+            if inner is not None and inner[1] and c is not None and c in (0, 1):
+                odd = (c == 1) == (a[0] == "eq")
+                return inner[0], odd
+    if a[0] == "not":
+        inner = parity_of(a[1])
+        if inner is not None:
+            return inner[0], not inner[1]
+    return None
+
+
+def mk_ite(c: P, a: P, b: P) -> P:
+    if a.key() == b.key():
+        return a
+    par = parity_of(c)
+    if par is not None:
+        x, odd_true = par
+        try:
+            if (a + b).is_zero():
+                S = P.atom(("parity", x))          # (-1)**x
+                # value is a when the condition holds
+                return (b * S) if odd_true else (a * S)
+        except Exception:
+            pass
+    return P.atom(("ite", c, a, b))
 
 
 def is_pyseq(v: P) -> bool:
